@@ -472,3 +472,54 @@ def _layer(it):
 scn(name="LinearLayerTT.forward", func="nn.LinearLayerTT.forward", props=("C20", "C15"), hooks=_dmv_hooks("nn.LinearLayerTT.forward", "result", "W", "v"),
     args=lambda it: (_layer(it), [dense_operand(it, "v", "W")], {}), check=value_check(_dmv_expected("W", True), "layer output"),
     waive=(("elementwise +", "the bias is created by the layer itself as zeros(size_out): its shape equals the produced modes by construction (REGISTER rule)"),))
+
+
+# --------------------------------------------------------------------------- TT layer with a concrete number of batch axes (0, 1, 2) and order 2
+
+def _layer_concrete(it, d):
+    w = make_tt(it, "W", True, d)
+    w.operand = True
+    w.extra = {"size_in": VSeq("size_in", P.const(d), lambda k: VInt(mode_atom(it, "N", "W", k))),
+               "size_out": VSeq("size_out", P.const(d), lambda k: VInt(mode_atom(it, "M", "W", k))),
+               "bias": VTensor(net.atom_tensor(it.sp, "bias", [mode_atom(it, "M", "W", P.const(k)) for k in range(d)]), "dtype:W")}
+    return w
+
+
+def _layer_input(it, d, nb):
+    for j in range(nb):
+        it.facts.lb[f"B{j}"] = 1
+    sizes = [P.atom(f"B{j}") for j in range(nb)] + [mode_atom(it, "N", "W", P.const(k)) for k in range(d)]
+    return VTensor(net.atom_tensor(it.sp, "v", sizes, tags=["batch"] * nb + ["mode"] * d), "dtype:v")
+
+
+def _layer_expected(d, nb):
+    def exp(sit, out):
+        w = make_tt(sit, "W", True, d)
+        L = iter("abcdefghijklmnopqrstuvwxyz")
+        batch = [next(L) for _ in range(nb)]
+        ops, rows, cols = [], [], []
+        bond = next(L)
+        for k in range(d):
+            m, n, nbond = next(L), next(L), next(L)
+            ops.append((sit.core(w, k), bond + m + n + nbond))
+            rows.append(m)
+            cols.append(n)
+            bond = nbond
+        sizes = [P.atom(f"B{j}") for j in range(nb)] + [mode_atom(sit, "N", "W", P.const(k)) for k in range(d)]
+        v = net.atom_tensor(sit.sp, "v", sizes)
+        e = expr(sit, ops + [(v, "".join(batch + cols))], batch + rows)
+        b = net.atom_tensor(sit.sp, "bias", [mode_atom(sit, "M", "W", P.const(k)) for k in range(d)])
+        if nb:
+            ones = net.ones_tensor(sit.sp, [P.atom(f"B{j}") for j in range(nb)])
+            bb = expr(sit, [(ones, "".join(batch)), (b, "".join(rows))], batch + rows)
+        else:
+            bb = b
+        return e.add(bb)
+    return exp
+
+
+for _nb in (0, 1, 2):
+    scn(name=f"LinearLayerTT.forward:d2,batch{_nb}", func="nn.LinearLayerTT.forward", props=("C20",),
+        args=(lambda nb: (lambda it: (_layer_concrete(it, 2), [_layer_input(it, 2, nb)], {})))(_nb),
+        check=value_check(_layer_expected(2, _nb), f"layer output for {_nb} batch axes"),
+        waive=(("elementwise +", "the bias is created by the layer itself as zeros(size_out): its shape equals the produced modes by construction (REGISTER rule)"),))
